@@ -176,6 +176,7 @@ func c09(p *core.Program, r *core.Report) {
 
 	footprintRule(p, r, "segment-coverage", [][2]string{{"", "doubleArea1"}, {"", "length1"}})
 	measureDelegationRule(p, r, "measure-delegation")
+	measureSumsPlainRule(p, r, "measure-sums-plain")
 
 	const rd = "area-terms-difference-form"
 	r.Rule(rd, "every floating-point product in the ring-area kernel doubleArea1 has a factor that is the difference of two ordinates of the ring (trapezoid form (y1-y0)*(x1+x0), or any form taken relative to a vertex): the rounding error of each term is then proportional to the size of the ring times its distance from the origin, not to the square of that distance as in the cross-product form x0*y1 - x1*y0, whose terms cancel catastrophically for small rings far from the origin. A necessary condition for the stated bound, not the bound itself", 1)
